@@ -117,6 +117,10 @@ pub struct Scn {
     /// (matches at exactly this distance)
     #[serde(default)]
     pub period: usize,
+    /// family read: do not run the crate's reader, only assemble the input and ask the reference (used to confirm that an
+    /// input on which the crate panicked is valid)
+    #[serde(default)]
+    pub ref_only: bool,
     /// include the strict records of the input in the result (family read)
     #[serde(default)]
     pub want_recs: bool,
@@ -581,6 +585,7 @@ fn run_read(s: &Scn) -> Value {
     let dict = s.parts.iter().find(|p| p.k == "lzma2").and_then(|p| p.opt.dict).unwrap_or(LZMAOptions::with_preset(s.parts.first().map(|p| p.opt.preset).unwrap_or(6)).dict_size);
     let mut member_count: i64 = -1;
     let (out, err): (Vec<u8>, Option<String>) = match s.fmt.as_str() {
+        _ if s.ref_only => (vec![], Some("ref_only".into())),
         "xz" => {
             let mut rd = XZReader::new(&mut src, s.multi);
             drain(&mut rd, &s.reads)
